@@ -28,6 +28,64 @@ pub struct CriteriaMapper {
     implied_criteria: Vec<CriteriaSet>,
 }
 
+/// Check that a criteria table can be turned into a [`CriteriaMapper`]: it may
+/// not redefine a built-in criteria, may not define more criteria than a
+/// [`CriteriaSet`] can hold, and no criteria may (transitively) imply itself.
+///
+/// Implied criteria which are not defined in the table are ignored here, they
+/// are reported (local store) or stripped (foreign audits) separately.
+pub fn check_criteria_table(
+    criteria: &SortedMap<CriteriaName, CriteriaEntry>,
+) -> Result<(), String> {
+    for builtin in [SAFE_TO_RUN, SAFE_TO_DEPLOY] {
+        if criteria.contains_key(builtin) {
+            return Err(format!(
+                "the built-in criteria '{builtin}' cannot be redefined"
+            ));
+        }
+    }
+    if criteria.len() + 2 > MAX_CRITERIA {
+        return Err(format!(
+            "too many criteria, at most {} custom criteria are supported",
+            MAX_CRITERIA - 2
+        ));
+    }
+
+    // Depth-first search for a criteria which can reach itself.
+    #[derive(Clone, Copy, PartialEq)]
+    enum Mark {
+        InProgress,
+        Done,
+    }
+    fn visit<'a>(
+        criteria: &'a SortedMap<CriteriaName, CriteriaEntry>,
+        marks: &mut FastMap<&'a str, Mark>,
+        name: &'a str,
+    ) -> Result<(), String> {
+        match marks.get(name) {
+            Some(Mark::Done) => return Ok(()),
+            Some(Mark::InProgress) => {
+                return Err(format!("the criteria '{name}' implies itself"));
+            }
+            None => {}
+        }
+        let Some(entry) = criteria.get(name) else {
+            return Ok(());
+        };
+        marks.insert(name, Mark::InProgress);
+        for implied in &entry.implies {
+            visit(criteria, marks, implied)?;
+        }
+        marks.insert(name, Mark::Done);
+        Ok(())
+    }
+    let mut marks = FastMap::new();
+    for name in criteria.keys() {
+        visit(criteria, &mut marks, name)?;
+    }
+    Ok(())
+}
+
 impl CriteriaMapper {
     pub fn new(criteria: &SortedMap<CriteriaName, CriteriaEntry>) -> CriteriaMapper {
         // Fixed indices for built-in criteria
